@@ -77,7 +77,7 @@ func c12Faults() []c12Fault {
 		c12Fault{"single &", "w = 1 & 2", 6, 7, false},
 	)
 	rt := []string{`1 / 0`, `1 % 0`, `5(1)`, `nofn()`, `"a" ~ "("`, `[1] < 2`, `$nope`, `"a\qb"`, `printf("%s")`, `printf("%d", 1)`, `numv.k = 1`, `arrv["k"] = 1`, `arrv[-9]`, `objv[[1]]`,
-		`match (1) { -1 => 2 }`, `1.2.3`, `arrv.push()`, `"a".split(1)`, `[printf]`, `numv.k++`,
+		`match (1) { -1 => 2 }`, `1.2.3`, `"a" ~ /a(/`, `numv !~ /[b-a]/`, `arrv.push()`, `"a".split(1)`, `[printf]`, `numv.k++`,
 		`wz /= 0`, `numv.k += 1`, `arrv["k"] -= 1`, `objv.k /= 0`, `numv.k *= 2`,
 		// a failing call whose argument calls a function defined on other lines (which calls again)
 		`printf("%d items", lab(1))`, `nofn(lab(2), lab(3))`, `5(lab(1))`, `arrv.push(lab(1), lab(2))`, `"a".split(lab(1))`}
@@ -103,7 +103,7 @@ type c12Spec struct {
 	CRLF  bool         `json:"crlf,omitempty"`
 	DashF bool         `json:"dash_f,omitempty"`  // the program is read from a file
 	Hash  bool         `json:"hashbang,omitempty"` // its first line is a #! comment
-	Prog  string       `json:"program,omitempty"`
+	Prog  fw.Text      `json:"program,omitempty"`
 	Files []drive.File `json:"files,omitempty"`
 	Sels  []string     `json:"selectors,omitempty"`
 }
@@ -290,7 +290,7 @@ func init() {
 					for si := range c11Slots() {
 						pc := c11FaultProg(fi, si)
 						sp := pc.spec()
-						c.Do(func() any { return c12Spec{Form: "general", Prog: sp.Program, Files: sp.Files, Sels: sp.Selectors} }, func() *fw.Violation { return c12General(c, sp) })
+						c.Do(func() any { return c12Spec{Form: "general", Prog: fw.Text(sp.Program), Files: sp.Files, Sels: sp.Selectors} }, func() *fw.Violation { return c12General(c, sp) })
 					}
 				}
 				// faults whose position is a newline byte or the end of the text: every prefix of a seed cut at a line end (an
@@ -304,7 +304,7 @@ func init() {
 						for _, tail := range []string{"", "\n", " \n", "  # c\n", "\r\n", "\n\n", "\nx = \"", "\nx = 'abc\n", "\n  y = /re\n"} {
 							sp := pc.spec()
 							sp.Program = src[:i] + tail
-							c.Do(func() any { return c12Spec{Form: "general", Prog: sp.Program, Files: sp.Files, Sels: sp.Selectors} }, func() *fw.Violation { return c12General(c, sp) })
+							c.Do(func() any { return c12Spec{Form: "general", Prog: fw.Text(sp.Program), Files: sp.Files, Sels: sp.Selectors} }, func() *fw.Violation { return c12General(c, sp) })
 						}
 					}
 				}
@@ -319,7 +319,7 @@ func init() {
 					for _, entry := range []string{"BEGIN {\n  print r(0)\n}", "function start() { return r(0) }\nBEGIN {\n  print start()\n}", "function a() { return b() }\nfunction b() { return r(0) }\nBEGIN {\n  print a()\n}",
 						"BEGIN {\n  print match (1) {\n    1 => r(0)\n  }\n}", "{\n  x = match ($) {\n    v => { print r(v) }\n  }\n}"} {
 						sp := drive.Spec{Program: "# header\n" + fn + "\n" + entry + "\n", Files: []drive.File{{Name: "in.json", Data: "[1]"}}}
-						c.Do(func() any { return c12Spec{Form: "general", Prog: sp.Program, Files: sp.Files} }, func() *fw.Violation { return c12General(c, sp) })
+						c.Do(func() any { return c12Spec{Form: "general", Prog: fw.Text(sp.Program), Files: sp.Files} }, func() *fw.Violation { return c12General(c, sp) })
 					}
 				}
 				for seed, pc := range seedPrograms() {
@@ -329,7 +329,7 @@ func init() {
 							sp := pc.spec()
 							sp.Program = c11SpliceText(toks, g, ins, false)
 							_ = seed
-							c.Do(func() any { return c12Spec{Form: "general", Prog: sp.Program, Files: sp.Files, Sels: sp.Selectors} }, func() *fw.Violation { return c12General(c, sp) })
+							c.Do(func() any { return c12Spec{Form: "general", Prog: fw.Text(sp.Program), Files: sp.Files, Sels: sp.Selectors} }, func() *fw.Violation { return c12General(c, sp) })
 						}
 					}
 				}
@@ -372,7 +372,7 @@ func init() {
 			case "cli":
 				return c12CLI(c, s, faults)
 			}
-			return c12General(c, drive.Spec{Program: s.Prog, Files: s.Files, Selectors: s.Sels})
+			return c12General(c, drive.Spec{Program: string(s.Prog), Files: s.Files, Selectors: s.Sels})
 		},
 	})
 }
